@@ -12,11 +12,11 @@ CONSTANTS
   WakeAfterPush = TRUE
   Overflow = FALSE
   Hosts <- BothHosts
-  Muts = {"none","repaired"}
+  Muts = {"none"}
   Ops = {"o1"}
   Timers = {"s1"}
   Jobs = {"j1"}
   Owner <- OwnC
   AnyTurn = TRUE
 SPECIFICATION XSpec
-INVARIANTS XTypeOK PendingBound TypeOK RealSafe RepBoth
+INVARIANTS XTypeOK PendingBound TypeOK RealSafe
